@@ -175,13 +175,19 @@ package http1
 // the upgrade wrapper. handed: a stream-close callback that will dispose of the connection exists.
 //@ ghost var disp int
 //@ ghost var handed bool
+// dnReqClose / dnRespClose: what the request and the response said about closing the connection. When the connection is
+// left to the stream-close callback (handed), the flag that callback will read holds their disjunction with the
+// connection-age reset - the response's wish included.
+//@ ghost var dnReqClose bool
+//@ ghost var dnRespClose bool
+//@ ghost var dnRespSeen bool
 
 //@ func HostClient.doNonNilReqResp(c, req, resp) retry, err
 //@   props C10
 //@   abstract
 //@   noinline
 //@   panics
-//@   modifies disp, handed
+//@   modifies disp, handed, dnReqClose, dnRespClose, dnRespSeen
 //@   ghostset-at-entry disp = 0
 //@   ghostset-at-entry handed = false
 //@   ghostset after acquireConn: disp = ite(result2 == nil, 1, 0)
@@ -194,6 +200,13 @@ package http1
 //@   ghostset after newUpgradeConn: disp = 4
 //@   ghostset after ReadRespBodyStream: handed = true
 //@   top-ensures disp != 1 || handed
+//@   ghostset-at-entry dnRespSeen = false
+//@   ghostset after Request.ConnectionClose: dnReqClose = result
+//@   ghostset after Response.ConnectionClose: dnRespClose = result
+//@   ghostset after Response.ConnectionClose: dnRespSeen = true
+//@   ghostset-at-entry dnReqClose = false
+//@   ghostset-at-entry dnRespClose = false
+//@   assert before Response.BodyStream: (resetConnection || dnReqClose || dnRespSeen) && shouldCloseConn == (resetConnection || dnReqClose || dnRespClose)
 
 // C10 (sequential slice of the timeout clause): the read/write timeout handed to the connection never exceeds
 // what is left of the request timeout, nor the configured per-operation timeout; an exhausted request timeout
